@@ -197,3 +197,42 @@ def gen(seed, tier):
     dist = {"corpus": ncorp, "hand": len(HAND), "structured": n_struct, "malformed": n_mal, "exhaustive_small_scope": nex,
             "op_kinds": dict(sorted(stats.items()))}
     return cases, dist
+
+
+# ---------------------------------------------------------------- wire clause (session level, harness/c11s.cc)
+WIRE_HAND = [
+    "1 ; A11 ; I0 ; N0 ; I0 ; S0 ; R0 ; K ; X0",
+    "2 ; A11 ; G1 ; I0 ; I1 ; K ; K ; S0 ; K ; R0 ; A11 ; K ; N1 ; K",
+    "3 ; A11 ; I0 ; I1 ; I2 ; G2 ; K ; G1 ; K ; K ; G0 ; K ; X1 ; K",
+    "2 ; I0 ; I1 ; A9 ; N0 ; I0 ; A2 ; N0 ; I0 ; S1 ; R1 ; S1 ; R1",
+]
+
+
+def gen_wire(seed, tier):
+    r = random.Random(seed * 7919 + 11)
+    cases = list(WIRE_HAND)
+    n = 60 if tier == "quick" else 400
+    for _ in range(n):
+        np_ = r.choice([1, 2, 2, 3, 4])
+        ops = ["A11"] if r.random() < 0.7 else []
+        for _ in range(r.choice([6, 10, 16, 24])):
+            x = r.random()
+            k = r.randrange(np_)
+            if x < 0.30:
+                ops.append("I%d" % k)
+            elif x < 0.42:
+                ops.append("N%d" % k)
+            elif x < 0.52:
+                ops.append("S%d" % k)
+            elif x < 0.62:
+                ops.append("R%d" % k)
+            elif x < 0.72:
+                ops.append("G%d" % r.choice([0, 1, 1, 2, 3]))
+            elif x < 0.90:
+                ops.append("K")
+            elif x < 0.97:
+                ops.append("A%d" % r.choice([1, 9, 10, 11, 30]))
+            else:
+                ops.append("X%d" % k)
+        cases.append("%d ; %s" % (np_, " ; ".join(ops)))
+    return cases
